@@ -53,7 +53,10 @@ func eQuoteClient(r *rng, c string) string {
 }
 
 func eGenClientValue(r *rng) string {
-	n := nCount(r, 1+r.n(6), 20, 7, 150)
+	n := 1 + r.n(6)
+	if r.chance(1, 20) {
+		n = nValueCount(r, 7, 150)
+	}
 	var items []string
 	for i := 0; i < n; i++ {
 		var c string
@@ -87,7 +90,7 @@ func eGenDomainList(r *rng, wild bool, neg bool) string {
 	}
 	if r.chance(1, 20) {
 		// a LONG list (log-scale): the values a request is aimed at lie anywhere among generated ones
-		items = nSpread(r, items, nWideValues(nLog(r, 7, 300), nil))
+		items = nSpread(r, items, nWideValues(nValueCount(r, 7, 300), nil))
 	}
 	if r.chance(1, 16) {
 		// a LONG name as a value (a subdomain chain of up to 253 bytes under a pool name)
@@ -109,7 +112,7 @@ func eGenList(r *rng, pool []string, maxN int, neg bool) string {
 		items[i] = pick(r, pool)
 	}
 	if r.chance(1, 20) {
-		items = nSpread(r, items, nWideValues(nLog(r, maxN+1, 200), pool)) // a LONG list (log-scale)
+		items = nSpread(r, items, nWideValues(nValueCount(r, maxN+1, 200), pool)) // a LONG list (log-scale)
 	}
 	for i := range items {
 		if neg {
